@@ -104,7 +104,7 @@ def check(ctx) -> Result:
     # ---- conjugation / transposition parity (a Hermitian matrix and its transpose differ by complex conjugation)
     from .. import conjalg as ca
     from ..inline import inlined, with_helpers
-    prh = with_helpers(ctx, pr)
+    prh = with_helpers(ctx, pr, exclude=("_calculate_density_matrix",))
     stores = [a for a in ast.walk(prh.node) if isinstance(a, ast.Assign) and src(a.targets[0]) == "self._rho"]
 
     def cls_rho(e):
